@@ -79,6 +79,8 @@ def main():
                     print(o[-1500:])
     finally:
         sh("git checkout -- .", "/repo")
+        # the evidence files written while the change was applied describe the CHANGED tree: put the committed ones back
+        sh("git checkout -- evidence", ROOT)
     meta_out = {"breaks_property": props[0] if props else None, "summary": meta.get("summary"), "needs_to_manifest": meta.get("needs"),
                 "agent_ran": meta.get("ran"), "confirmed_by_me": out["confirmed"], "i_ran": out["ran"], "checks_against_it": results}
     json.dump(meta_out, open(os.path.join(dst, "meta.json"), "w"), indent=1)
